@@ -56,6 +56,7 @@ ASSUMPTIONS = ['structured-text / restructured-text formats are not '
                'the url option (absolute_url) is not part of the statement '
                'and is not exercised']
 CASE_CPU_SECONDS = 120.0
+CASE_CPU_SECONDS_QUICK = 10.0
 
 MODS = ['html_quote', 'url_quote', 'url_quote_plus', 'url_unquote',
         'url_unquote_plus', 'newline_to_br', 'lower', 'upper', 'capitalize',
